@@ -264,22 +264,28 @@ fn fold(rep: &mut Reporter, e: Explored, name: &str) {
     }
 }
 
-/// Run a positive control: its findings are expected and are NOT violations of the property.
-fn control<const W: usize>(rep: &mut Reporter, seed: u64, thorough: bool, budget: usize) -> bool {
-    let mut e = explore::<Svc<W>>("C34", TEST, seed, thorough, budget);
+/// Run a positive control: its findings are expected and are NOT violations of the property; if the oracle does
+/// not flag it the run is inconclusive.
+fn control<const W: usize>(args: &Args, thorough: bool, budget: usize) {
+    let mut rep = Reporter::new("C34", args.seed);
+    let mut e = explore::<Svc<W>>("C34", TEST, args.seed, thorough, budget);
     let caught = e.failing_executions > 0;
     let kinds: std::collections::BTreeSet<String> =
         e.part.violations.iter().map(|(sig, _, _)| sig.clone()).collect();
-    rep.extra(
-        &format!("control {} ", NAMES[W]),
-        json!({"caught": caught, "failing_executions": e.failing_executions, "kinds": kinds}),
-    );
+    rep.extra("positive control", json!(NAMES[W]));
+    rep.extra("control caught", json!(caught));
+    rep.extra("control failing executions", json!(e.failing_executions));
+    rep.extra("control failure kinds", json!(kinds));
     e.part.violations.clear();
     e.part.counters.remove("violations_not_listed");
     e.part.nontrivial.clear();
     e.part.samples.clear();
-    fold(rep, e, NAMES[W]);
-    caught
+    fold(&mut rep, e, NAMES[W]);
+    rep.require(
+        caught,
+        &format!("positive control {} was NOT caught by the oracle — run is inconclusive", NAMES[W]),
+    );
+    rep.finish(RULE, true);
 }
 
 pub fn run() {
@@ -311,37 +317,38 @@ pub fn run() {
     }
     let thorough = args.tier == Tier::Thorough;
     let budget = args.budget(20_000, 400_000, 20);
-    let t0 = std::time::Instant::now();
-    fold(&mut rep, explore::<Svc<0>>("C34", TEST, args.seed, thorough, budget), NAMES[0]);
-    fold(&mut rep, explore::<Svc<1>>("C34", TEST, args.seed, thorough, budget), NAMES[1]);
-    let mut real = vec![0usize, 1];
+    drop(rep);
+    // One summary per service / control (see c31.rs for why). Controls first: if the oracle cannot catch the
+    // deliberately broken variants, everything after is inconclusive anyway.
+    control::<4>(&args, thorough, budget);
+    control::<5>(&args, thorough, budget);
+    service::<0>(&args, thorough, budget);
+    service::<1>(&args, thorough, budget);
     if thorough {
         // (each additional flow costs about a minute of rustc inside the simulator's `compiled()`)
-        fold(&mut rep, explore::<Svc<2>>("C34", TEST, args.seed, thorough, budget), NAMES[2]);
-        fold(&mut rep, explore::<Svc<3>>("C34", TEST, args.seed, thorough, budget), NAMES[3]);
-        real.push(2);
-        real.push(3);
+        service::<2>(&args, thorough, budget);
+        service::<3>(&args, thorough, budget);
     }
-    let c1 = control::<4>(&mut rep, args.seed, thorough, budget);
-    let c2 = control::<5>(&mut rep, args.seed, thorough, budget);
-    rep.extra("control caught", json!(c1 && c2));
+}
+
+fn service<const W: usize>(args: &Args, thorough: bool, budget: usize) {
+    let mut rep = Reporter::new("C34", args.seed);
+    let t0 = std::time::Instant::now();
+    fold(&mut rep, explore::<Svc<W>>("C34", TEST, args.seed, thorough, budget), NAMES[W]);
+    let f = NAMES[W];
+    rep.extra("service", json!(f));
     rep.extra("seconds", json!(t0.elapsed().as_secs_f64()));
-    rep.require(c1, "positive control control_keyed_nonatomic was NOT caught by the oracle — run is inconclusive");
-    rep.require(c2, "positive control control_single_nonatomic was NOT caught by the oracle — run is inconclusive");
-    for w in real {
-        let f = NAMES[w];
-        rep.require(
-            rep.counter(&format!("{f}_exhaustive_executions")) >= 30,
-            &format!("{f}: fewer than 30 exhaustive executions"),
-        );
-        rep.require(
-            rep.counter(&format!("{f}_gets_after_ack")) >= 100,
-            &format!("{f}: fewer than 100 gets issued after an observed acknowledgement"),
-        );
-        rep.require(
-            rep.counter(&format!("{f}_runs_where_an_ack_never_came")) == 0,
-            &format!("{f}: an acknowledgement never arrived"),
-        );
-    }
+    rep.require(
+        rep.counter(&format!("{f}_exhaustive_executions")) >= 30,
+        &format!("{f}: fewer than 30 exhaustive executions"),
+    );
+    rep.require(
+        rep.counter(&format!("{f}_gets_after_ack")) >= 100,
+        &format!("{f}: fewer than 100 gets issued after an observed acknowledgement"),
+    );
+    rep.require(
+        rep.counter(&format!("{f}_runs_where_an_ack_never_came")) == 0,
+        &format!("{f}: an acknowledgement never arrived"),
+    );
     rep.finish(RULE, true);
 }
